@@ -321,6 +321,19 @@ def drive_shape(args):
             # a NaN default where the library gives it meaning (gradients): structural operations only
             st = PT.gen_pattern(rng, types, default=math.nan, scheme='distinct', start_id=900)
             cases.append(case_dense(st, 'contig', dtype))
+            # ... and nan_to_num_ on it, for option combinations in which the replacement of nan is itself infinite
+            # (torch replaces nan, +inf and -inf in ONE pass: a replaced value is not replaced again)
+            try:
+                pn = PT.build(st, dtype, 'contig')
+                for k, (nn, pi, ni) in enumerate([(7., 8., -8.), (math.inf, 5., -5.), (-math.inf, 5., -5.), (math.inf, None, None), (0., math.inf, -math.inf)]):
+                    c = op_case(f'nan_to_num_nandefault{k}', lambda t, nn=nn, pi=pi, ni=ni: t.clone().nan_to_num_(nan=nn, posinf=pi, neginf=ni),
+                                lambda d, nn=nn, pi=pi, ni=ni: d.nan_to_num_(nan=nn, posinf=pi, neginf=ni), [pn])
+                    if c:
+                        cases.append(c)
+            except MachineryFailure:
+                raise
+            except Exception:
+                pass
         for p in pats:
             for (name, f, g) in unary_ops(p, rng):
                 c = op_case(name, f, g, [p])
